@@ -230,15 +230,23 @@ fn d_release(r: &Receiver, sh: &Arc<Mutex<DShared>>, held: &mut Vec<usize>, k: u
     }
 }
 
-pub struct ConnDataHarness;
+/// The same data-path scenario serves two properties: C03 (the connection is a FIFO channel conserving
+/// every offset; weak atomics decide) and C02 (a chunk handed to the receiver comes home exactly once and
+/// only then; sequentially consistent runs only, the lifetime argument of C02 is not about memory order).
+pub struct ConnDataHarness {
+    pub prop: &'static str,
+}
 impl Harness for ConnDataHarness {
     fn name(&self) -> &'static str {
-        "c03.zero_copy_connection"
+        if self.prop == "C02" { "c02.zero_copy_connection" } else { "c03.zero_copy_connection" }
     }
     fn property(&self) -> &'static str {
-        "C03"
+        self.prop
     }
     fn modes(&self) -> Vec<(&'static str, u32, bool)> {
+        if self.prop == "C02" {
+            return vec![("sc", 1, true)];
+        }
         vec![("sc", 4, true), ("weak", 5, true)]
     }
     fn quick_runs(&self) -> u64 {
